@@ -37,6 +37,14 @@ func genCase(t *rapid.T) Case {
 	if rapid.IntRange(0, 2).Draw(t, "dupshow") == 0 {
 		out = append(out, tsrun.Op{Kind: "show"})
 	}
+	if rapid.IntRange(0, 5).Draw(t, "fault") == 0 {
+		// a tty write that fails part-way through one frame, then Shows without changes
+		x, y := rapid.IntRange(0, c.Cfg.W-1).Draw(t, "fx"), rapid.IntRange(0, c.Cfg.H-1).Draw(t, "fy")
+		out = append(out, tsrun.Op{Kind: "set", X: x, Y: y, R: 'F'}, tsrun.Op{Kind: "writefault", N: rapid.IntRange(0, 40).Draw(t, "fn")}, tsrun.Op{Kind: "show"}, tsrun.Op{Kind: "show"})
+		if rapid.Bool().Draw(t, "flock") {
+			out = append(out, tsrun.Op{Kind: "lock", X: x, Y: y, W: 1, H: 1, On: true}, tsrun.Op{Kind: "show"})
+		}
+	}
 	c.Ops = out
 	return c
 }
@@ -144,6 +152,14 @@ func prop(c Case) error {
 		if pt == tsrun.None {
 			continue
 		}
+		if r.Faulted {
+			// the tty accepted only part of this frame: nothing to say about it,
+			// but the library must not make up for it later by writing cells
+			// that did not change (the next Shows are checked as usual)
+			lockedAtLastShow = lockedNow
+			unlockCalled = cellSet{}
+			continue
+		}
 		if r.WideAtCornerOnTrickTerminal() {
 			tainted = true // the known defect damages the display from here on
 		}
@@ -249,6 +265,8 @@ func classes(c Case) []string {
 			}
 		case "resize":
 			add("resize")
+		case "writefault":
+			add("tty-write-fault")
 		}
 		prevShow = false
 	}
